@@ -67,7 +67,7 @@ XMLENC_TB = ["modelled, not verified: AES/DES/RSA/GCM primitives (abstract Block
              "a ledger computed with the standard library independently of xmlenc), etree path lookup, base64",
              "hook: xmlenc/verif_hooks.go (toy block cipher for byte-exact CBC framing comparison)"]
 PROPS["C10"] = {
-    "modules": ["SamlVerif.Props.C10", "SamlVerif.Props.TransPad", "SamlVerif.Props.PureXmlenc"],
+    "modules": ["SamlVerif.Props.C10", "SamlVerif.Props.TransPad", "SamlVerif.Props.TransCBC", "SamlVerif.Props.PureXmlenc"],
     "trusted_base": XMLENC_TB,
     "assumptions": ["block ciphers are length-preserving permutations of blocks; AEAD open(seal) = id (hypotheses Block.Good / Aead.Good)",
                     "interoperation is tested against a reference written from the W3C text with the standard library (testing, not proof); "
@@ -77,7 +77,7 @@ PROPS["C10"] = {
             "with stdlib-computed ledger; reference interop both directions; AES-GCM decrypt of reference values and the GCM encryption known finding; since the seeded-change rounds: decrypt hold-and-compare sequence across the CBC ciphers; reference-made GCM values at every length 0..65 with every kind of final byte at block-aligned lengths",
 }
 PROPS["C11"] = {
-    "modules": ["SamlVerif.Props.C11", "SamlVerif.Props.TransPad", "SamlVerif.Props.PureXmlenc"],
+    "modules": ["SamlVerif.Props.C11", "SamlVerif.Props.TransPad", "SamlVerif.Props.TransCBC", "SamlVerif.Props.PureXmlenc"],
     "trusted_base": XMLENC_TB,
     "assumptions": ["AEAD authenticity (Aead.Good.auth) for the GCM tamper theorem"],
     "rule": "cipher-value lengths 0..4 blocks+1 exhaustively for the toy cipher and every registered algorithm; wrong key sizes and Go key types; "
@@ -106,7 +106,7 @@ PROPS["C18"] = {
 BIND_TB = ["modelled, not verified: compress/flate (abstract; exercised end to end by the harness), url.Parse / URL.String on the IdP endpoint "
            "(the model takes the endpoint's raw query as given), etree serialisation of the message"]
 PROPS["C12"] = {
-    "modules": ["SamlVerif.Props.C12", "SamlVerif.Props.PureSaml"],
+    "modules": ["SamlVerif.Props.C12", "SamlVerif.Props.TransMiddleware", "SamlVerif.Props.PureSaml"],
     "trusted_base": BIND_TB,
     "assumptions": ["inflate(deflate b) = b", "POST forms: C12_post_form is stated over the template skeleton that C14_form_skeletons / C12_post_templates tie to the source"],
     "rule": "24 fixed hostile relay states/name IDs (& = # + % ; ? blanks quotes NUL-free controls, non-ASCII, >80 bytes) x 4 IdP endpoints (with/without query) "
@@ -115,7 +115,7 @@ PROPS["C12"] = {
             "message IDs under a recording RandReader; since the seeded-change rounds: POST forms: sequences of 1-6 creations on one SP with every form read after the last creation; hostile strings (]]> CR LF TAB < & quotes) in attribute positions (InResponseTo, entity IDs, endpoint queries) x three message kinds x both bindings; short-read RandReader",
 }
 PROPS["C13"] = {
-    "modules": ["SamlVerif.Props.C13", "SamlVerif.Props.PureSaml"],
+    "modules": ["SamlVerif.Props.C13", "SamlVerif.Props.TransMiddleware", "SamlVerif.Props.PureSaml"],
     "trusted_base": BIND_TB + ["RSA/ECDSA signing and goxmldsig enveloped signing are primitives (parameter `sign`); verification in the harness uses crypto/rsa, "
                               "crypto/ecdsa directly for the redirect binding and a fresh goxmldsig validation context for XML signatures"],
     "assumptions": [],
@@ -270,8 +270,10 @@ for pid, fns in {"C01": "parseResponse / parseAssertion / parseEncryptedAssertio
                  "C04": "validateRequestID / validateAssertion / parseResponse / parseArtifactResponse / samlsp Middleware.ServeACS (the outstanding request IDs)", "C05": "IdpAuthnRequest.Validate (from the Destination check on) / getACSEndpoint / the endpoint selection of ServeIDPInitiated / the gate of ServeSSO",
                  "C18": "validateLogoutResponse / ValidateLogoutResponseForm and ValidateLogoutResponseRedirect (from the signature check on) / the trust configuration of validateSignature",
                  "C08": "IdpAuthnRequest.getSPEncryptionCert (the selection of the certificate string, up to its decoding)",
-                 "C10": "xmlenc appendPadding / stripPadding", "C11": "xmlenc stripPadding",
+                 "C10": "xmlenc appendPadding / stripPadding / the framing of CBC.Decrypt", "C11": "xmlenc stripPadding / the framing of CBC.Decrypt",
                  "C16": "samlsp CookieSessionProvider.GetSession",
+                 "C12": "samlsp Middleware.HandleStartAuthFlow (the choice of binding and location)",
+                 "C13": "samlsp Middleware.HandleStartAuthFlow (the choice of binding and location)",
                  "C06": "IdentityProvider.ServeSSO (the gate before the assertion is made)",
                  "C19": "samlidp Server.GetSession (the credential guards and the branch for requests without credentials) / IdentityProvider.ServeSSO (the gate)",
                  "C17": "samlsp Middleware.ServeACS / CreateSessionFromAssertion (as effect traces) / CookieRequestTracker.GetTrackedRequest"}.items():
